@@ -25,7 +25,23 @@ def eighths(draw, shape):
     return draw(hnp.arrays(np.float64, shape, elements=st.integers(-32, 32).map(lambda v: v / 8)))
 
 
-MATRIX_KINDS = ["generic", "lattice", "eighths", "lowrank", "dup", "clustered", "scaled", "tiny", "huge"]
+MATRIX_KINDS = ["generic", "lattice", "eighths", "lowrank", "dup", "clustered", "scaled", "tiny", "huge", "narrowint"]
+NARROW_RANGES = {"int8": (-100, 100), "uint8": (0, 250), "int16": (-1000, 1000)}
+
+
+def narrow_dtype(A):
+    """The narrowest of uint8 / int8 / int16 that holds the (integer) values of A, or None."""
+    A = np.asarray(A)
+    if A.size == 0 or not np.all(A == np.round(A)):
+        return None
+    lo, hi = A.min(), A.max()
+    if lo >= 0 and hi <= 255:
+        return "uint8"
+    if lo >= -128 and hi <= 127:
+        return "int8"
+    if lo >= -32768 and hi <= 32767:
+        return "int16"
+    return None
 
 
 def matrix(draw, n, m, kind):
@@ -71,6 +87,11 @@ def matrix(draw, n, m, kind):
         ex = draw(hnp.arrays(np.int64, (m,), elements=st.integers(-4, 4)))
         g = draw(st.sampled_from([1e-3, 1.0, 1.0, 1e3]))
         return X * (10.0 ** ex) * g
+    if kind == "narrowint":
+        # counts / fingerprints stored in a narrow integer type: integer values whose squares and dot products do not fit the type
+        # (the check hands them to the estimator in that dtype, the oracle works on the float64 values)
+        lo, hi = NARROW_RANGES[draw(st.sampled_from(sorted(NARROW_RANGES)))]
+        return rng_of(draw).integers(lo, hi + 1, size=(n, m)).astype(float)
     if kind == "tiny":      # small units (e.g. positions in metres): absolute tolerances in the code must not matter
         base = draw(st.sampled_from(["generic", "dup", "clustered"]))
         return matrix(draw, n, m, base) * draw(st.sampled_from([1e-7, 1e-9, 1e-5]))
